@@ -298,6 +298,15 @@ class GridWeighted(Grid):
         # has already read is left alone)
         self._cache['gridptsw'] = []
 
+    def bumps(self, num_bumps, **kwargs):
+        """ Generates arbitrary bumps (i.e. hills) on the 2-dimensional grid.
+
+        Please refer to :func:`.Grid.bumps` for the arguments; the weighted grid points are regenerated afterwards.
+        """
+        super(GridWeighted, self).bumps(num_bumps, **kwargs)
+        # The weighted grid points depend on the grid points: drop the cached ones
+        self._cache['gridptsw'] = []
+
     def reset(self):
         """ Resets the grid. """
         super(GridWeighted, self).reset()
